@@ -422,6 +422,29 @@ def check_siblings(ctx: Ctx, inner, outer):
                 ctx.violation("compose", f"C17/compose/siblings/{type(cont).__name__}", case,
                               f"{type(cont).__name__}[AttrMap(inner) | plain] under an outer map, render #{n}: attributes {got}, expected {exp} (the plain sibling must only see the outer map)")
                 return
+            # with that canvas still alive (the screen keeps the last one): the container rendered on its own shows no outer map,
+            # and a changed outer map shows on the next render
+            direct = cont.render((8,), focus)
+            got_d = row_attrs(direct, 0) if isinstance(cont, urwid.Columns) else row_attrs(direct, 0)[:4] + row_attrs(direct, 1)[:4]
+            exp_d = apply_map(inner, base) + base
+            if got_d != exp_d:
+                ctx.violation("compose", f"C17/compose/siblings/{type(cont).__name__}/unwrapped-after-wrapped", case,
+                              f"{type(cont).__name__} rendered on its own after it was rendered under an outer AttrMap: attributes {got_d}, expected {exp_d}")
+                return
+            other = {"x": "w"} if outer != {"x": "w"} else {"y": "w"}
+            top.set_attr_map(dict(other))
+            if focus:
+                top.set_focus_map(dict(other))
+            canv2 = top.render((8,), focus)
+            got2 = row_attrs(canv2, 0) if isinstance(cont, urwid.Columns) else row_attrs(canv2, 0)[:4] + row_attrs(canv2, 1)[:4]
+            exp2 = apply_map(other, apply_map(inner, base)) + apply_map(other, base)
+            top.set_attr_map(dict(outer))
+            top.set_focus_map(dict(outer))
+            if got2 != exp2:
+                ctx.violation("compose", f"C17/compose/siblings/{type(cont).__name__}/map-changed", case,
+                              f"outer map changed from {outer} to {other} (earlier canvas still alive): attributes {got2}, expected {exp2}")
+                return
+            del canv, direct, canv2
     ctx.distinct("nontrivial", (2, "sib", repr(case)))
 
 
@@ -439,6 +462,10 @@ def check_fill(ctx: Ctx, inner, outer):
     exp = apply_map(outer, apply_map(inner, ["x", "y", "z", None]))
     if got != exp:
         ctx.violation("compose", "C17/compose/fill_attr_apply", case, f"fill_attr_apply(inner) then fill_attr_apply(outer): {got}, expected {exp}")
+    got_c = row_attrs(c)
+    if got_c != apply_map(inner, ["x", "y", "z", None]):
+        ctx.violation("compose", "C17/compose/fill_attr_apply/source-canvas-changed", case,
+                      f"fill_attr_apply on a copy changed the canvas it was copied from: {got_c}, expected {apply_map(inner, ['x', 'y', 'z', None])}")
     if i1 != inner or o1 != outer:
         ctx.violation("compose", "C17/compose/fill_attr_apply/mapping-mutated", case, f"fill_attr_apply changed the caller's mapping: inner {inner}->{i1}, outer {outer}->{o1}")
     ctx.distinct("nontrivial", (2, "fill", repr(case)))
